@@ -46,6 +46,7 @@ type C10Mid struct {
 	Nums     []int64            `json:"nums"`
 	Strs     []string           `json:"strs"`
 	Raw      []byte             `json:"raw"`
+	Vals     []C10Leaf          `json:"vals"` // structs held by value in a slice
 	M        map[string]string  `json:"m"`
 	MF       map[string]float64 `json:"mf"`
 	Untagged int
@@ -178,6 +179,14 @@ func (r *c10Render) mid(m *C10Mid) string {
 			p = append(p, strconv.Quote(s))
 		}
 		fs = append(fs, "strs: ["+strings.Join(p, " ")+"]")
+	}
+	if m.Vals != nil {
+		var p []string
+		for i := range m.Vals {
+			v := m.Vals[i]
+			p = append(p, (&c10Render{shuffle: r.next() | 1}).leaf(&v))
+		}
+		fs = append(fs, "vals: ["+strings.Join(p, " ")+"]")
 	}
 	if m.Raw != nil {
 		r.n++
@@ -315,6 +324,14 @@ func genMid(t *rapid.T) *C10Mid {
 			m.Strs = append(m.Strs, rapid.SampledFrom([]string{"a", "b c", ""}).Draw(t, "str"))
 		}
 	}
+	if rapid.Bool().Draw(t, "mvals") {
+		// elements with different sets of zero fields: what one element leaves unset must not be
+		// inherited from its neighbour
+		m.Vals = []C10Leaf{}
+		for i := 0; i < rapid.IntRange(1, 3).Draw(t, "nv"); i++ {
+			m.Vals = append(m.Vals, *genLeaf(t))
+		}
+	}
 	if rapid.Bool().Draw(t, "mraw") {
 		m.Raw = []byte(rapid.SampledFrom([]string{"raw", "\x00\x01", "bytes!"}).Draw(t, "raw"))
 	}
@@ -434,10 +451,16 @@ func c10ShowTo(b *bytes.Buffer, v reflect.Value, depth int) {
 			return
 		}
 		b.WriteString(v.Type().Name() + "{")
+		first := true
 		for i := 0; i < v.NumField(); i++ {
-			if i > 0 {
+			if v.Type().Field(i).Name == "Vals" && v.Field(i).Len() == 0 {
+				// field added after the first regression replays were recorded: shown only when set
+				continue
+			}
+			if !first {
 				b.WriteString(" ")
 			}
+			first = false
 			b.WriteString(v.Type().Field(i).Name + ":")
 			c10ShowTo(b, v.Field(i), depth+1)
 		}
